@@ -81,6 +81,9 @@ func normPod(p *corev1.Pod) *corev1.Pod {
 }
 
 func (s *sim) frameSnap(phase, call string) {
+	if !world.SnapshotEnabled() {
+		return
+	}
 	st := s.frame()
 	st.n++
 	cands := world.SnapExtra{Name: "candidates"}
